@@ -5,6 +5,7 @@
 
   tables                         → preGate=<hexlist> guarded=<hexlist> unknown=<hexlist> allow=<name-hex>:<arm>|… default=<0|1> first=<0|1> names=<n> unreadable=<n> deferral=<absent|blocked-only|unknown>
   names                          → `|`-joined hex of Gen.allCommandNames
+  unreadable                     → what the translator could not read (`.` = nothing), entries separated by ` ;; `
   reset <password-hex|none>      → ok                         (empty dataset, no connections)
   accept <c>                     → state of c afterwards
   wake <c> | close <c> | drop <c> → state of c afterwards
@@ -123,7 +124,8 @@ def isUnknown : Req → Bool
 
 def doFrame (st : St) (c : Nat) (req : Req) : St × String × String :=
   let (verdict, nowAuthed) := specVerdict st c req
-  if isUnknown req then (st, "unknown", verdict) else
+  -- no prediction: the model state stays, the Spec's own record of who presented the password is kept up to date
+  if isUnknown req then ({ st with specAuthed := if nowAuthed then c :: st.specAuthed else st.specAuthed }, "unknown", verdict) else
   let (s', r) := Code.processConnectionFrame tree disp st.s c req
   ({ s := s', specAuthed := if nowAuthed then c :: st.specAuthed else st.specAuthed }, showClass r, verdict)
 
@@ -135,6 +137,8 @@ def step (st : St) (ws : List String) : St × String :=
       s!" default={if Gen.gateDefaultRefuses then 1 else 0} first={if Gen.gateIsFirst then 1 else 0} names={Gen.allCommandNames.length}" ++
       s!" unreadable={Gen.unreadable.length} deferral={(Gen.deferral.splitOn ":").head!}")
   | ["names"] => (st, hexList (Gen.allCommandNames.map nameBytes))
+  | ["unreadable"] => (st, if Gen.unreadable.isEmpty && Gen.preGateUnknownGuard.isEmpty then "." else
+      String.intercalate " ;; " (Gen.unreadable ++ Gen.preGateUnknownGuard.map fun p => s!"preGate guard of {p.1}: {p.2}"))
   | ["reset", pw] =>
     match (if pw == "none" then some none else (ofHex pw).map some) with
     | some p => ({ s := { password := p, conns := [], store := KS.emptyStore, subs := [], replicas := [], monitors := [] } }, "ok")
